@@ -1259,12 +1259,12 @@ def hostile_case(case, r, idx):
                                                  "abstract": case, "hostile": True}}
 
 
-def hostile_flood(r, idx):
+def hostile_flood(r, idx, kind=None):
     v = r.choice(["s", "c"])
     cfg = base_cfg(r)
     cfg["server"] = {"idle_ms": 20000}
     cfg["client"] = {"idle_ms": 20000}
-    kind = r.choice(["pathchal", "newcid", "newcid_rpt", "newcid_jump", "retirecid", "ping", "maxdata", "stream1", "ackdup", "ackbad"])
+    kind = kind or r.choice(["pathchal", "newcid", "newcid_rpt", "newcid_jump", "retirecid", "ping", "maxdata", "stream1", "ackdup", "ackbad", "streamdup"])
     if kind == "pathchal":
         fb = b"".join(bytes([0x1a]) + bytes(r.randrange(256) for _ in range(8)) for _ in range(40))
     elif kind == "newcid":
@@ -1292,6 +1292,12 @@ def hostile_flood(r, idx):
         fb = bytes([0x01]) * 200
     elif kind == "maxdata":
         fb = b"".join(bytes([0x10]) + _var(x) for x in range(1000, 1100))
+    elif kind == "streamdup":
+        # the same range of a stream over and over, behind a hole that is never filled: what is kept
+        # for reassembly must not grow with the number of copies
+        peerbit = 0 if v == "s" else 1
+        n = r.choice([300, 700, 1000])
+        fb = bytes([0x0e]) + _var(peerbit + 4 * r.choice([0, 1])) + _var(r.choice([1, 5, 2000])) + _var(n) + b"x" * n
     elif kind == "stream1":
         peerbit = 0 if v == "s" else 1
         fb = b"".join(bytes([0x0e]) + _var(peerbit) + _var(2 * i) + _var(1) + b"x" for i in range(150))
